@@ -3,6 +3,7 @@
 # Confirms in the scratch worktree that (1) the patch applies and builds, (2) the demonstration passes without
 # and fails with the patch, (3) the 358 baseline tests still pass with the patch. Then copies the mutant to
 # /verif/seeded/<seeded-id>/ (patch.diff, demonstration, meta.json with what was run). Leaves the worktree clean.
+# DEMO_ENV="K=V ..." is passed to the demonstration's go test (some app-level demonstrations are gated by a variable).
 set -u
 wt="$1"; md="$2"; id="$3"
 export GOFLAGS=-mod=mod GOPROXY=off GOSUMDB=off GOTOOLCHAIN=local
@@ -13,7 +14,7 @@ demo=$(ls "$md"/*_test.go 2>/dev/null | head -1)
 place=$(grep -m1 -o "place at: *[^ ]*" "$demo" | sed 's/place at: *//')
 [ -n "$place" ] || place="$(python3 -c "import json;print(json.load(open('$md/meta.json'))['file'].rsplit('/',1)[0])")/$(basename "$demo")"
 pkg="./$(dirname "$place")/"
-run_demo() { cp "$demo" "$wt/$place"; (cd "$wt" && go test -vet=off -count=1 "$pkg" -run "$(grep -o 'func Test[A-Za-z0-9_]*' "$demo" | sed 's/func //' | paste -sd'|')" 2>&1 | tail -5); rc=$?; rm -f "$wt/$place"; return $rc; }
+run_demo() { mkdir -p "$wt/$(dirname "$place")"; cp "$demo" "$wt/$place"; (cd "$wt" && env ${DEMO_ENV:-} go test -vet=off -count=1 -tags verif -ldflags=-checklinkname=0 "$pkg" -run "$(grep -o 'func Test[A-Za-z0-9_]*' "$demo" | sed 's/func //' | paste -sd'|')" 2>&1 | tail -5); rc=$?; rm -f "$wt/$place"; rmdir "$wt/$(dirname "$place")" 2>/dev/null; return $rc; }
 echo "== demonstration WITHOUT patch (must pass)"; out=$(run_demo); echo "$out" | tail -2; echo "$out" | grep -q "^ok" || { echo "FAIL: demo does not pass on clean tree"; exit 1; }
 git apply "$md/patch.diff" || { echo "FAIL: patch does not apply"; exit 1; }
 go build ./... 2>&1 | grep -v "memsize\|chains/bitcoin/test\|cmd/olfullnode\|^#" | head -5
